@@ -16,8 +16,11 @@ use elf::section::SectionHeader;
 use elf::segment::ProgramHeader;
 use elf::string_table::StringTable;
 use elf::symbol::SymbolTable;
-use elf::{ElfBytes, ElfStream};
+use elf::ElfBytes;
+#[cfg(feature = "elf_std")]
+use elf::ElfStream;
 use std::fmt::Write as _;
+#[cfg(feature = "elf_std")]
 use std::io::{Read, Seek};
 
 pub type Obs = Result<String, String>;
@@ -89,8 +92,28 @@ pub fn dump_bytes(b: &[u8]) -> String {
     s
 }
 
-/// everything observable of a string table: every string at a string start, walking from 0
+/// A `Clone` of a returned value must be observably the same value: appends a marker (which makes two otherwise
+/// equal observations differ) when the dump of an explicit `Clone::clone` differs from the original's.
+fn clone_marker<T: Clone, F: Fn(&T) -> String>(t: &T, dump: F) -> String {
+    let c = Clone::clone(t);
+    let (a, b) = (dump(t), dump(&c));
+    if a == b {
+        String::new()
+    } else {
+        format!("CLONE-DIFFERS[{:016x} vs {:016x}]", fnv64(a.as_bytes()), fnv64(b.as_bytes()))
+    }
+}
+
 pub fn dump_strtab(t: &StringTable<'_>) -> String {
+    let mut s = dump_strtab_plain(t);
+    if s.len() < 4096 {
+        s.push_str(&clone_marker(t, dump_strtab_plain));
+    }
+    s
+}
+
+/// everything observable of a string table: every string at a string start, walking from 0
+fn dump_strtab_plain(t: &StringTable<'_>) -> String {
     let mut s = String::from("strtab{");
     let mut off = 0usize;
     let mut n = 0;
@@ -120,6 +143,14 @@ pub fn dump_strtab(t: &StringTable<'_>) -> String {
 }
 
 pub fn dump_symtab<E: EndianParse>(t: &SymbolTable<'_, E>, strs: &StringTable<'_>) -> String {
+    let mut s = dump_symtab_plain(t, strs);
+    if t.len() <= 64 {
+        s.push_str(&clone_marker(t, |x| dump_symtab_plain(x, strs)));
+    }
+    s
+}
+
+fn dump_symtab_plain<E: EndianParse>(t: &SymbolTable<'_, E>, strs: &StringTable<'_>) -> String {
     let mut s = format!("symtab[{}]{{", t.len());
     for (i, y) in t.iter().enumerate() {
         let _ = write!(s, "{}:{:?}", i, y);
@@ -141,6 +172,14 @@ pub fn dump_symtab<E: EndianParse>(t: &SymbolTable<'_, E>, strs: &StringTable<'_
 }
 
 pub fn dump_dynamic<E: EndianParse>(t: &DynamicTable<'_, E>) -> String {
+    let mut s = dump_dynamic_plain(t);
+    if t.len() <= 64 {
+        s.push_str(&clone_marker(t, dump_dynamic_plain));
+    }
+    s
+}
+
+fn dump_dynamic_plain<E: EndianParse>(t: &DynamicTable<'_, E>) -> String {
     let mut s = format!("dynamic[{}]{{", t.len());
     for d in t.iter().take(100_000) {
         let _ = write!(s, "{:?};", d);
@@ -352,11 +391,11 @@ pub fn obs_slice<E: EndianParse>(f: &ElfBytes<'_, E>, q: &Query) -> Obs {
     match q {
         Query::Ehdr => Ok(dump_ehdr(&f.ehdr)),
         Query::Shdrs => Ok(match f.section_headers() {
-            Some(t) => dump_shdrs(t.iter()),
+            Some(t) => dump_shdrs(t.iter()) + &(if t.len() <= 64 { clone_marker(&t, |x| dump_shdrs(x.iter())) } else { String::new() }),
             None => "shdrs:none".to_string(),
         }),
         Query::Phdrs => Ok(match f.segments() {
-            Some(t) => dump_phdrs(t.iter()),
+            Some(t) => dump_phdrs(t.iter()) + &(if t.len() <= 64 { clone_marker(&t, |x| dump_phdrs(x.iter())) } else { String::new() }),
             None => "phdrs:none".to_string(),
         }),
         Query::SectionData(i) => {
@@ -460,6 +499,7 @@ pub trait CallMonitor {
 pub struct NoMonitor;
 impl CallMonitor for NoMonitor {}
 
+#[cfg(feature = "elf_std")]
 fn versym_count_stream<E: EndianParse, S: Read + Seek>(f: &ElfStream<E, S>) -> usize {
     for sh in f.section_headers().iter() {
         if sh.sh_type == elf::abi::SHT_GNU_VERSYM {
@@ -469,6 +509,7 @@ fn versym_count_stream<E: EndianParse, S: Read + Seek>(f: &ElfStream<E, S>) -> u
     0
 }
 
+#[cfg(feature = "elf_std")]
 pub fn obs_stream<E: EndianParse, S: Read + Seek>(f: &mut ElfStream<E, S>, q: &Query, m: &mut dyn CallMonitor) -> Obs {
     let cap = 100_000usize;
     macro_rules! call {
